@@ -141,3 +141,7 @@ impl DecodedPicture {
         (&self.luma, &self.chroma_b, &self.chroma_r)
     }
 }
+
+#[cfg(any(kani, ruffle_rs_h263_rs_verif))]
+#[path = "/verif/hooks/h263/decoder/picture.rs"]
+mod verif_hook;
